@@ -51,7 +51,19 @@ struct RecAllocator : TestMemoryAllocator {
 };
 
 int g_warnings = 0;
-void fputs_recorder(const char* s, PlatformSpecificFile) { if (strstr(s, "WARNING: Attempting to deallocate")) g_warnings++; }
+// The output path of the warning may itself release a buffer the cache does not know (the "statics" situation the warning
+// text talks about): when armed, the sink re-enters dealloc() with another foreign buffer while the warning is being printed.
+SimpleStringInternalCache* g_reenter_cache = nullptr; int g_reenter_depth = 0, g_reenter_max = 0;
+void fputs_recorder(const char* s, PlatformSpecificFile) {
+    if (!strstr(s, "WARNING: Attempting to deallocate")) return;
+    g_warnings++;
+    if (g_reenter_cache && g_reenter_depth < 3) {
+        static char foreign2[16] = "foreign2";
+        g_reenter_depth++; if (g_reenter_depth > g_reenter_max) g_reenter_max = g_reenter_depth;
+        g_reenter_cache->dealloc(foreign2, 10);
+        g_reenter_depth--;
+    }
+}
 void flush_nop() {}
 
 // ----- alphabet
@@ -90,7 +102,7 @@ struct Scenario {
                 int n_dealloc = (int)live.size() * 3;
                 bool can_double = last_released != nullptr;
                 if (can_double) for (auto& h : live) if (h.p == last_released) can_double = false;
-                int n = n_alloc + n_dealloc + 2 + (can_double ? 1 : 0) + 2;
+                int n = n_alloc + n_dealloc + 3 + (can_double ? 1 : 0) + 2;
                 int op = ch.choose(n);
                 char buf[96];
                 if (op < n_alloc) {
@@ -144,13 +156,16 @@ struct Scenario {
                     // block stays in its used list); any other behaviour shows up as a pointer-choice divergence later
                 } else {
                     int r = op - n_alloc - n_dealloc;
-                    if (r < 2) {
-                        size_t size = r == 0 ? 10 : 300;
-                        vf::ctx("dealloc-foreign");
-                        snprintf(buf, sizeof buf, "dealloc(foreign,%zu) ", size); trace += buf;
+                    if (r < 3) {
+                        size_t size = r == 1 ? 300 : 10;
+                        vf::ctx(r == 2 ? "dealloc-foreign-reentrant" : "dealloc-foreign");
+                        snprintf(buf, sizeof buf, "dealloc(foreign,%zu%s) ", size, r == 2 ? ":sink-releases-another-foreign-buffer" : ""); trace += buf;
+                        if (r == 2) { g_reenter_cache = &cache; g_reenter_depth = 0; g_reenter_max = 0; }
                         cache.dealloc(foreign, size);
+                        g_reenter_cache = nullptr;
+                        if (g_reenter_max > 1) vf::fail("warning/recursive", trace + ": the warning was printed again from inside its own output path");
                         if (!loose && warned_before == 0 && g_warnings != 1) vf::fail("dealloc/no-warning-for-foreign", trace + ": first unknown release did not print the warning");
-                    } else if (can_double && r == 2) {
+                    } else if (can_double && r == 3) {
                         vf::ctx("dealloc-double");
                         snprintf(buf, sizeof buf, "dealloc(again,%zu) ", last_released_size); trace += buf;
                         Rec* rr = rec.find(last_released);
@@ -159,7 +174,7 @@ struct Scenario {
                         if (rr && rr->returned) ASAN_POISON_MEMORY_REGION(rr->p, rr->size ? rr->size : 1);
                         if (!loose && warned_before == 0 && g_warnings != 1) vf::fail("dealloc/no-warning-for-released", trace + ": releasing an already released buffer did not print the warning");
                     } else {
-                        int c = r - 2 - (can_double ? 1 : 0);
+                        int c = r - 3 - (can_double ? 1 : 0);
                         if (c == 0) {
                             vf::ctx("clearCache"); trace += "clearCache ";
                             cache.clearCache();
@@ -218,7 +233,7 @@ int main(int argc, char** argv) {
     PlatformSpecificFPuts = fputs_recorder;
     PlatformSpecificFlush = flush_nop;
     bool T = vf::thorough();
-    vf::info("rule", "every operation history (alloc over boundary sizes of all six classes; release of a live buffer with its own size / another size of its class / a size of another class; foreign release; repeated release; clearCache; clearAll) up to the depth bound, each replayed on a fresh cache; non-trivial = produced a warning or obtained more than two blocks");
+    vf::info("rule", "every operation history (alloc over boundary sizes of all six classes; release of a live buffer with its own size / another size of its class / a size of another class; foreign release; foreign release whose warning output path releases another foreign buffer (re-entrancy); repeated release; clearCache; clearAll) up to the depth bound, each replayed on a fresh cache; non-trivial = produced a warning or obtained more than two blocks");
     {
         Scenario s{T ? 5 : 4, T ? 4 : 3, SIZES_Q, (int)(sizeof SIZES_Q / sizeof *SIZES_Q), false};
         vf::info("hist.bound", vf::fmt("depth %d, live<=%d, %d sizes, unpruned", s.depth, s.maxlive, s.nsizes));
